@@ -399,7 +399,7 @@ class Column:
         if (
             not isinstance(p_list[-1], dict)
             and bool(re.match(r"[0-9]+", p_list[-1]))
-            or p_list[-1] == "max"
+            or str(p_list[-1]).lower() == "max"
         ):
             size = self.get_size(p_list)
             if self.check_type_parameter(size):
